@@ -2398,6 +2398,7 @@ class FragResult:
 
 def find_fragment(fn, frag):
     first, last = frag["first"].strip(), frag["last"].strip()
+    nth = int(frag.get("last_nth", 1))  # which occurrence of `last` after `first` closes the fragment
 
     def head(stmt):
         return ast.unparse(stmt).splitlines()[0].strip()
@@ -2405,9 +2406,12 @@ def find_fragment(fn, frag):
     def search(body):
         for i, st_ in enumerate(body):
             if head(st_) == first:
+                seen = 0
                 for j in range(i, len(body)):
                     if head(body[j]) == last:
-                        return body[i:j + 1]
+                        seen += 1
+                        if seen == nth:
+                            return body[i:j + 1]
                 raise Unsupported(f"fragment end {last!r} not found after {first!r}")
             for attr in ("body", "orelse", "finalbody", "handlers"):
                 sub = getattr(st_, attr, None)
